@@ -170,6 +170,20 @@ AgentOK(Q, r, s, steps, commit, cond, res, after) ==
     ELSE \/ res = "reject" /\ after = x.state
          \/ cond /\ res = "ok" /\ x.n = 0 /\ after = s
 
+(* The same call when step `bad` (a recv) carries a message of the right   *)
+(* kind with a payload its receiver cannot accept (a cookie that was not   *)
+(* asked for, an undecodable body).  The tables do not say whether an      *)
+(* agent looks at the payload, so it may treat the message as any other of *)
+(* its kind (AgentOK); but if it refuses it - whatever the reason for the  *)
+(* error, payload or table - "rejects with an error rather than a state    *)
+(* change" applies: the state is the one before that step.                 *)
+AgentOKBad(Q, r, s, steps, commit, cond, res, after, bad) ==
+    LET pre == Exchange(Q, r, s, SubSeq(steps, 1, bad - 1)) IN
+    IF bad \in 1..Len(steps) /\ pre.n = bad - 1
+    THEN \/ AgentOK(Q, r, s, steps, commit, cond, res, after)
+         \/ res \in {"refuse", "reject", "app"} /\ after = pre.state
+    ELSE AgentOK(Q, r, s, steps, commit, cond, res, after)
+
 (* What of this can be exercised through the public API of pallas-network: *)
 (*  - there is no tx-monitor server agent;                                 *)
 (*  - NoCommitMsg: the agent has no state-tracking method that sends the   *)
